@@ -20,7 +20,7 @@ func init() {
 			"R2: a node is handed back to the pool only on an edge where its reference count is tested to be zero (or <=0) and after the unlink routine was applied to it on every path. " +
 			"R3: Add pairs the list append with the index store, Remove pairs the unlink with the index delete. " +
 			"R4: Iterator() increments the reference count of the node it starts from and stores that node in the iterator; Close() calls the release routine exactly once and clears the pointer. " +
-			"R5: in the advance routine every new cursor value gets a reference (+1) on its incoming path and the old cursor loses one (-1) before, also between two consecutive steps. R6: payload is read only from live nodes (from the index, from a skip-removed routine, or tested not to carry the removed mark on every path); R7: cursor routines get only iterator cursors (as argument, or - routines of the iterator itself - from the receiver's cursor); R8: links are written only by the list primitives (node methods, methods of a dedicated list type, the unlink and the append routine); R9: the unlink routine reports nil or its own successor as new head (or, when it re-targets the head itself, writes its own successor and only where the node is known to be the head); R10: release drops its reference before testing the count. The private routines (unlink, append, release, advance) are resolved by what they do (neighbour rewiring, payload fill, reference give-back, loop that moves a reference), wherever they live - also written out in place in the API method. R11: the unlink routine overwrites every payload field of the node (key and value) with its zero value on every path that changes the node.",
+			"R5: in the advance routine every new cursor value gets a reference (+1) on its incoming path and the old cursor loses one (-1) before, also between two consecutive steps. R6: payload is read only from live nodes (from the index, from a skip-removed routine, or tested not to carry the removed mark on every path); R7: cursor routines get only iterator cursors (as argument, or - routines of the iterator itself - from the receiver's cursor); R8: links are written only by the list primitives (node methods, methods of a dedicated list type, the unlink and the append routine); R9: the unlink routine reports nil or its own successor as new head (or, when it re-targets the head itself, writes its own successor and only where the node is known to be the head); R10: release drops its reference before testing the count. The private routines (unlink, append, release, advance) are resolved by what they do (neighbour rewiring, payload fill, reference give-back, loop that moves a reference), wherever they live - also written out in place in the API method. R11: the unlink routine overwrites every payload field of the node (key and value) with its zero value on every path that changes the node. R12: the pointer surgery of the unlink routine: what a neighbour receives is the node's own link of the same name (or nil where the node is known to have no neighbour there), read before the node's own links are cleared; a path that rewires one neighbour rewires the other one too.",
 		NotDecided: "order and liveness of what an iterator returns over all histories (a value statement); the list pointer surgery inside the unlink routine.",
 	})
 	register(&Check{
@@ -29,7 +29,7 @@ func init() {
 		Run:       runC11,
 		Technique: "static analysis: typestate (acquire/close on all paths) over go/ssa for every iterable.Iterator obtained inside library code, plus the C10 head-propagation rule",
 		Explanation: "R1: every value of an iterable.Iterator type obtained by a call of Map.Iterator in non-test library code, and neither returned nor stored into a field, is closed (defer or explicit) on every path to a normal exit. " +
-			"R2 (=C10.R1): the unlink result is propagated to the head at every call site, otherwise a stuck head pins every removed node behind it. R3: cursor routines are applied only to iterator cursors. M1-M10: the reference counting and list rules of C10. R4: every insert of the LRU cache is followed by the capacity test in the same critical section (C09.R4). R5: the unlink routine overwrites every payload field of the node (key and value) with its zero value on every path that changes the node - a recycled node keeps nothing of the removed entry reachable.",
+			"R2 (=C10.R1): the unlink result is propagated to the head at every call site, otherwise a stuck head pins every removed node behind it. R3: cursor routines are applied only to iterator cursors. M1-M10: the reference counting and list rules of C10. R4: every insert of the LRU cache is followed by the capacity test in the same critical section (C09.R4). R5: the unlink routine overwrites every payload field of the node (key and value) with its zero value on every path that changes the node - a recycled node keeps nothing of the removed entry reachable. R6: what the creator's epilogue removes from a table of the cache (the in-flight table, any further built-in map of the cache struct) on one outcome of the creation it removes - or sees absent - on every outcome. R7: an iterator of the package that owns several source iterators closes every one of them on every path of its Close.",
 		NotDecided: "the numeric retention bound and the cost growth; leaks through iterators that user code forgets to close.",
 	})
 }
